@@ -213,6 +213,20 @@ func init() {
 				if len(cmds) > 0 {
 					add("completion-args", &DriverReq{Prog: p, Kind: "comp", CompLine: "prog " + cmds[0] + " a", Zsh: zsh, Argv: []string{"prog", "a", cmds[0]}})
 				}
+				// a command name typed in full that is also a prefix of sibling names (c, co, cmd, clone ...)
+				nTyped := 0
+				for _, c := range cmds {
+					isPrefix := false
+					for _, d := range cmds {
+						if d != c && strings.HasPrefix(d, c) {
+							isPrefix = true
+						}
+					}
+					if isPrefix && nTyped < 2 {
+						nTyped++
+						add("completion-command-typed", &DriverReq{Prog: p, Kind: "comp", CompLine: "prog " + c, Zsh: zsh, Argv: []string{"prog", c, "prog"}})
+					}
+				}
 				for _, o := range p.Root.Opts {
 					if len(o.Suggested) > 0 {
 						add("completion-values", &DriverReq{Prog: p, Kind: "comp", CompLine: "prog --" + o.Name + "=sug", Zsh: zsh, Argv: []string{"prog", "--" + o.Name + "=sug", "prog"}})
